@@ -26,10 +26,10 @@ def run(an: Analysis, rep):
     rep.rule("R08.2", "hand-written __eq__ and __hash__ are functions of the same key; every field takes part in equality", 2)
     rep.rule("R08.3", "constructors store only immutable shapes into data-class fields", 30)
     rep.rule("R08.4", "constant key: every leaf type, type-/sign-/NaN-exact, recursive", 9)
-    r081(an, rep)
-    r082(an, rep)
-    r083(an, rep)
-    r084(an, rep)
+    from .common import purity
+    rep.run(purity, an, rep, "R08.P", ["constant_eq", "from_json", "from_code", "normalize"])
+    for fn in (r081, r082, r083, r084):
+        rep.run(fn, an, rep)
 
 
 def r081(an, rep):
